@@ -12,7 +12,7 @@ open EAO
 
 /-! ## `np.interp` is linear in `fp` -/
 
-theorem interp_go_scale (x c : Rat) (xs : List Rat) : ∀ (xa fa : Rat) (fs : List Rat),
+theorem Ramp.interp_go_scale (x c : Rat) (xs : List Rat) : ∀ (xa fa : Rat) (fs : List Rat),
     interp.go x xa (fa * c) xs (fs.map (· * c)) = interp.go x xa fa xs fs * c := by
   induction xs with
   | nil => intro xa fa fs; simp [interp.go]
@@ -37,27 +37,18 @@ theorem interp_scale (xp fp : List Rat) (x c : Rat) :
       simp only [List.map_cons, interp]
       split
       · rfl
-      · exact interp_go_scale x c xs x0 f0 fs
+      · exact Ramp.interp_go_scale x c xs x0 f0 fs
 
-/-! ## `_convert_ramp` is linear in the profile -/
+/-! ## `_convert_ramp` is linear in the profile (`sum_map_mul_right`, `getD_map_mul`: `EAO.Lemmas.Contract`) -/
 
-theorem sum_map_mul_right (l : List Rat) (c : Rat) : (l.map (· * c)).sum = l.sum * c := by
-  induction l with
-  | nil => simp
-  | cons a t ih => simp only [List.map_cons, List.sum_cons, ih]; grind
-
-theorem getD_map_mul (l : List Rat) (i : Nat) (c : Rat) : (l.map (· * c)).getD i 0 = l.getD i 0 * c := by
-  simp only [List.getD_eq_getElem?_getD, List.getElem?_map]
-  cases l[i]? <;> simp
-
-theorem getLastD_map_mul (l : List Rat) (c : Rat) : (l.map (· * c)).getLastD 0 = l.getLastD 0 * c := by
+theorem Ramp.getLastD_map_mul (l : List Rat) (c : Rat) : (l.map (· * c)).getLastD 0 = l.getLastD 0 * c := by
   simp only [List.getLastD_eq_getLast?, List.getLast?_map]
   cases l.getLast? <;> simp
 
-theorem padded_scale (l : List Rat) (m : Nat) (c : Rat) :
+theorem Ramp.padded_scale (l : List Rat) (m : Nat) (c : Rat) :
     l.map (· * c) ++ List.replicate m ((l.map (· * c)).getLastD 0) =
       (l ++ List.replicate m (l.getLastD 0)).map (· * c) := by
-  rw [getLastD_map_mul, List.map_append, List.map_replicate]
+  rw [Ramp.getLastD_map_mul, List.map_append, List.map_replicate]
 
 theorem convertRamp_scale (ramp : List Rat) (stepSec rampSec : Nat) (same : Bool) (c : Rat) :
     convertRamp (ramp.map (· * c)) stepSec rampSec same = (convertRamp ramp stepSec rampSec same).map (· * c) := by
@@ -70,11 +61,162 @@ theorem convertRamp_scale (ramp : List Rat) (stepSec rampSec : Nat) (same : Bool
       apply List.map_congr_left
       intro k _
       exact interp_scale _ _ _ _
-    · rw [List.map_map, padded_scale]
+    · rw [List.map_map, Ramp.padded_scale]
       apply List.map_congr_left
       intro i _
       simp only [Function.comp, getD_map_mul, ← List.map_drop, ← List.map_take, sum_map_mul_right]
       rw [Rat.div_def, Rat.div_def]
       split <;> split <;> split <;> simp only [Rat.div_def] <;> grind
+
+/-! ## the two factors: `1/k` on the profile and step / unit -/
+
+theorem Ramp.entry_rescale {k : Rat} {u u' : Nat} (hu : (u' : Rat) * k = (u : Rat)) (s v : Rat) :
+    v * (1 / k) * (s / (u' : Rat)) = v * (s / (u : Rat)) := by
+  rw [← hu, Rat.div_def, Rat.div_def, Rat.div_def, Rat.inv_mul_rev]; grind
+
+theorem cv_rescale_core {k : Rat} {u u' : Nat} (hu : (u' : Rat) * k = (u : Rat)) (l : List Rat)
+    (stepSec rampSec : Nat) (same : Bool) :
+    (convertRamp (l.map (· * (1 / k))) stepSec rampSec same).map (· * ((stepSec : Rat) / (u' : Rat))) =
+      (convertRamp l stepSec rampSec same).map (· * ((stepSec : Rat) / (u : Rat))) := by
+  rw [convertRamp_scale, List.map_map]
+  apply List.map_congr_left
+  intro v _
+  exact Ramp.entry_rescale hu _ v
+
+/-- the statement as requested; `hk` and `hu0` are not needed (`cv_rescale_core`): in `Rat`, `(u' * k)⁻¹ = k⁻¹ * u'⁻¹`
+    holds unconditionally (division by zero is zero) -/
+theorem cv_rescale {k : Rat} (_hk : k ≠ 0) {u u' : Nat} (hu : (u' : Rat) * k = (u : Rat)) (_hu0 : u ≠ 0)
+    (l : List Rat) (stepSec rampSec : Nat) (same : Bool) :
+    (convertRamp (l.map (· * (1 / k))) stepSec rampSec same).map (· * ((stepSec : Rat) / (u' : Rat))) =
+      (convertRamp l stepSec rampSec same).map (· * ((stepSec : Rat) / (u : Rat))) :=
+  cv_rescale_core hu l stepSec rampSec same
+
+/-! ## the constructor checks -/
+
+def Ramp.pairP (lo up : Option (List Rat)) : Except BuildError (List Rat × List Rat) :=
+    match lo with
+    | none => pure ([], [])
+    | some l =>
+      let u := up.getD l
+      if l.length ≠ u.length then throw .assertion
+      else if (l.zip u).any (fun p => decide (p.2 < p.1)) then throw .assertion
+      else pure (l, u)
+
+theorem Ramp.profCtor_eq (q : CHPProfP) : profCtor q = (do
+  let s ← Ramp.pairP q.startLo q.startUp
+  let d ← Ramp.pairP q.shutLo q.shutUp
+  match q.shutUpH with
+  | none => pure ()
+  | some uh =>
+    if (q.shutLoH.getD []).length ≠ d.1.length ∨ uh.length ≠ d.2.length then throw .assertion
+  match q.startUpH with
+  | none => pure ()
+  | some uh =>
+    if uh.length ≠ s.2.length ∨ (q.startLoH.getD []).length ≠ s.1.length then throw .assertion
+  pure (s, d)) := rfl
+
+theorem Ramp.any_zip_scale {c : Rat} (hc : 0 < c) (l u : List Rat) :
+    ((l.map (· * c)).zip (u.map (· * c))).any (fun p => decide (p.2 < p.1)) =
+      (l.zip u).any (fun p => decide (p.2 < p.1)) := by
+  rw [List.zip_map, List.any_map]
+  congr 1
+  funext p
+  simp only [Function.comp, Prod.map]
+  exact decide_eq_decide.mpr (Rat.mul_lt_mul_right hc)
+
+theorem Ramp.getD_map_map (up : Option (List Rat)) (l : List Rat) (c : Rat) :
+    (up.map (·.map (· * c))).getD (l.map (· * c)) = (up.getD l).map (· * c) := by
+  cases up <;> rfl
+
+theorem Ramp.pairP_scale {c : Rat} (hc : 0 < c) (lo up : Option (List Rat)) :
+    Ramp.pairP (lo.map (·.map (· * c))) (up.map (·.map (· * c))) =
+      (Ramp.pairP lo up).map (fun p => (p.1.map (· * c), p.2.map (· * c))) := by
+  cases lo with
+  | none => rfl
+  | some l =>
+    simp only [Ramp.pairP, Option.map_some, Ramp.getD_map_map, List.length_map, Ramp.any_zip_scale hc]
+    split
+    · rfl
+    · split <;> rfl
+
+
+theorem Ramp.length_getD_map (o : Option (List Rat)) (c : Rat) :
+    ((o.map (·.map (· * c))).getD []).length = (o.getD []).length := by
+  cases o <;> simp
+
+theorem profCtor_rescale {k : Rat} (hk : 0 < k) (q : CHPProfP) :
+    profCtor (CHPProfP.rescale k q) = (profCtor q).map (fun sd =>
+      ((sd.1.1.map (· * (1 / k)), sd.1.2.map (· * (1 / k))), (sd.2.1.map (· * (1 / k)), sd.2.2.map (· * (1 / k))))) := by
+  have hc := one_div_pos hk
+  rw [Ramp.profCtor_eq, Ramp.profCtor_eq]
+  simp only [CHPProfP.rescale, Ramp.pairP_scale hc, Ramp.length_getD_map]
+  cases Ramp.pairP q.startLo q.startUp with
+  | error e => rfl
+  | ok s =>
+    cases Ramp.pairP q.shutLo q.shutUp with
+    | error e => rfl
+    | ok d =>
+      cases q.shutUpH <;> cases q.startUpH <;>
+        simp only [Option.map_some, Option.map_none, List.length_map, Except.map, bind, Except.bind, pure,
+          Except.pure] <;>
+        repeat (first | rfl | split)
+
+/-! ## the profiles on the grid -/
+
+theorem Ramp.cvo_rescale {k : Rat} {u u' : Nat} (hu : (u' : Rat) * k = (u : Rat)) (o : Option (List Rat)) (l : List Rat)
+    (h : l = [] → o = none) (stepSec rampSec : Nat) (same : Bool) :
+    (if (!l.isEmpty) = true then
+        (o.map (·.map (· * (1 / k)))).map
+          (fun l => (convertRamp l stepSec rampSec same).map (· * ((stepSec : Rat) / (u' : Rat))))
+      else o.map (·.map (· * (1 / k)))) =
+    (if (!l.isEmpty) = true then
+        o.map (fun l => (convertRamp l stepSec rampSec same).map (· * ((stepSec : Rat) / (u : Rat))))
+      else o) := by
+  split
+  · rw [Option.map_map]
+    congr 1
+    funext l'
+    exact cv_rescale_core hu l' stepSec rampSec same
+  · rename_i hne
+    have : l = [] := by simpa using hne
+    rw [h this]; rfl
+
+theorem mkProf_rescale_core {k : Rat} {u u' : Nat} (hu : (u' : Rat) * k = (u : Rat)) (q : CHPProfP)
+    (s d : List Rat × List Rat) (hs : s.1 = [] → q.startLoH = none ∧ q.startUpH = none)
+    (hd : d.1 = [] → q.shutLoH = none ∧ q.shutUpH = none) (stepSec : Nat) :
+    mkProf (CHPProfP.rescale k q) (s.1.map (· * (1/k)), s.2.map (· * (1/k))) (d.1.map (· * (1/k)), d.2.map (· * (1/k)))
+      stepSec u' = mkProf q s d stepSec u := by
+  unfold mkProf
+  simp only [CHPProfP.rescale, List.isEmpty_map, cv_rescale_core hu,
+    Ramp.cvo_rescale hu q.startLoH s.1 (fun h => (hs h).1), Ramp.cvo_rescale hu q.startUpH s.1 (fun h => (hs h).2),
+    Ramp.cvo_rescale hu q.shutLoH d.1 (fun h => (hd h).1), Ramp.cvo_rescale hu q.shutUpH d.1 (fun h => (hd h).2)]
+
+/-- the statement as requested; `hk` and `hu0` are not needed (`mkProf_rescale_core`) -/
+theorem mkProf_rescale {k : Rat} (_hk : k ≠ 0) {u u' : Nat} (hu : (u' : Rat) * k = (u : Rat)) (_hu0 : u ≠ 0)
+    (q : CHPProfP) (s d : List Rat × List Rat) (hs : s.1 = [] → q.startLoH = none ∧ q.startUpH = none)
+    (hd : d.1 = [] → q.shutLoH = none ∧ q.shutUpH = none) (stepSec : Nat) :
+    mkProf (CHPProfP.rescale k q) (s.1.map (· * (1/k)), s.2.map (· * (1/k))) (d.1.map (· * (1/k)), d.2.map (· * (1/k)))
+      stepSec u' = mkProf q s d stepSec u :=
+  mkProf_rescale_core hu q s d hs hd stepSec
+
+/-! ## examples: the three branches of `convertRamp` on literals, and a satisfiable unit change (hour → day) -/
+
+example : convertRamp [2, 4] 1800 3600 false = [2, 2, 3, 4] := by decide +kernel
+example : convertRamp [2, 4, 6] 7200 3600 false = [3, 6] := by decide +kernel
+example : convertRamp [2, 4, 5] 5400 3600 false = [8 / 3, 14 / 3] := by decide +kernel
+example : ((86400 : Nat) : Rat) * (1 / 24) = ((3600 : Nat) : Rat) ∧ (0 : Rat) < 1 / 24 := by decide +kernel
+example : (convertRamp ([48, 96].map (· * (1 / (1 / 24 : Rat)))) 1800 3600 false).map (· * ((1800 : Nat) / (86400 : Nat) : Rat)) =
+    (convertRamp [48, 96] 1800 3600 false).map (· * ((1800 : Nat) / (3600 : Nat) : Rat)) := by decide +kernel
+
+/-
+`#print axioms` (scratch file importing the built module):
+'EAO.CHPUnit.interp_scale' depends on axioms: [propext, Classical.choice, Quot.sound]
+'EAO.CHPUnit.convertRamp_scale' depends on axioms: [propext, Classical.choice, Quot.sound]
+'EAO.CHPUnit.cv_rescale' depends on axioms: [propext, Classical.choice, Quot.sound]
+'EAO.CHPUnit.cv_rescale_core' depends on axioms: [propext, Classical.choice, Quot.sound]
+'EAO.CHPUnit.profCtor_rescale' depends on axioms: [propext, Classical.choice, Quot.sound]
+'EAO.CHPUnit.mkProf_rescale' depends on axioms: [propext, Classical.choice, Quot.sound]
+'EAO.CHPUnit.mkProf_rescale_core' depends on axioms: [propext, Classical.choice, Quot.sound]
+-/
 
 end EAO.CHPUnit
